@@ -799,12 +799,178 @@ static void case_history(vf_rng *r)
 }
 
 /* ------------------------------------------------------------------ entry */
+/* ------------------------------------------------- locate in node lists */
+/*
+ * mpt_node_locate() on lists with several equal and near-equal names.
+ * Documented meaning (source comment): pos > 0: pos-th match counting from the
+ * base node forward, the base node itself included; pos < 0: |pos|-th match
+ * before the base node; pos == 0: last match in the list.  A node matches when
+ * its name equals the 'len' bytes handed over (charset < 0: text of len bytes;
+ * charset >= 0: content of that charset whose stored length, terminator
+ * included for text, is len).  Nothing behind those bytes belongs to the name.
+ */
+#define LMAXN 8
+#define LNAME 320
+typedef struct { int state; size_t n; uint8_t b[LNAME + 4]; } lname;
+static int lname_eq(const lname *a, int state, const uint8_t *q, size_t n)
+{
+	return a->state == state && a->n == n && (!n || !memcmp(a->b, q, n));
+}
+static void case_locate(vf_rng *r)
+{
+	MPT_STRUCT(node) *nd[LMAXN];
+	static lname nm[LMAXN], var[6];
+	const void *ext[LMAXN];
+	int count = vf_range(r, 3, LMAXN);
+	size_t cap = 20, n;
+	char desc[400];
+	size_t dl = 0;
+
+	/* base name length around the inline capacity of a default node, or anything */
+	switch (vf_below(r, 6)) {
+	case 0: n = 1 + vf_below(r, 4); break;
+	case 1: case 2: n = cap - 3 + vf_below(r, 6); break;
+	case 3: n = 80 + vf_below(r, 8); break;
+	case 4: n = 1 + vf_below(r, 300); break;
+	default: n = 2 + vf_below(r, 30);
+	}
+	/* variants: 0 base, 1 shorter by one, 2 longer by one, 3 last byte changed, 4 first byte changed, 5 unrelated */
+	for (int v = 0; v < 6; v++) { var[v].state = SText; var[v].n = n; for (size_t i = 0; i < n + 2; i++) var[v].b[i] = (uint8_t) ('a' + vf_below(r, 26)); }
+	for (int v = 1; v < 5; v++) memcpy(var[v].b, var[0].b, n);
+	var[1].n = n - 1;
+	var[2].n = n + 1; var[2].b[n] = (uint8_t) ('A' + vf_below(r, 26));
+	var[3].b[n - 1] ^= 0x20;
+	var[4].b[0] ^= 0x20;
+	var[5].n = 1 + vf_below(r, 12);
+
+	vf_fp_u64(0x10ca7e); vf_fp(var[0].b, n); vf_fp_u64(count);
+	dl += snprintf(desc + dl, sizeof(desc) - dl, "locate: base name of %zu bytes, list:", n);
+	int nequal = 0;
+	for (int i = 0; i < count; i++) {
+		int v = vf_chance(r, 2, 5) ? 0 : (int) vf_below(r, 6);
+		int binary = vf_chance(r, 1, 10), unset = !binary && vf_chance(r, 1, 16);
+		static const size_t nodelens[] = { 0, 0, 0, 60, 200 };
+		vf_at("mpt_node_new"); vf_count("mpt_node_new", 1);
+		nd[i] = mpt_node_new(vf_chance(r, 1, 3) ? var[v].n + 1 : nodelens[vf_below(r, 5)]);
+		VF_CHECK(nd[i] != 0, "model:node_new:null", "mpt_node_new returned NULL");
+		nm[i] = var[v];
+		vf_at("mpt_identifier_set"); vf_count("mpt_identifier_set", 1);
+		if (unset) {
+			nm[i].state = SUnset; nm[i].n = 0;
+		} else if (binary) {
+			uint8_t *d = mpt_identifier_set(&nd[i]->ident, 0, (int) nm[i].n);
+			VF_CHECK(d != 0 || !nm[i].n, "model:set-binary:refused", "set(node, NULL, %zu) returned NULL", nm[i].n);
+			if (nm[i].n) memcpy(d, nm[i].b, nm[i].n);
+			nm[i].state = nm[i].n ? SBinary : SUnset;
+		} else {
+			char *src = vf_xalloc(nm[i].n);
+			if (nm[i].n) memcpy(src, nm[i].b, nm[i].n);
+			VF_CHECK(mpt_identifier_set(&nd[i]->ident, src, (int) nm[i].n) != 0, "model:set:refused", "set(node, text %zu bytes) returned NULL", nm[i].n);
+			vf_xfree(src, nm[i].n);
+		}
+		if (nm[i].state == SText && v == 0) nequal++;
+		vf_fp_u64((uint64_t) v << 8 | nm[i].state);
+		if (dl + 16 < sizeof(desc)) dl += snprintf(desc + dl, sizeof(desc) - dl, " %s%s", (const char *[]) { "B", "B-1", "B+1", "B~last", "B~first", "other" }[v],
+		                                           nm[i].state == SBinary ? "(bin)" : nm[i].state == SUnset ? "(unset)" : "");
+	}
+	/* the list: public link fields of the node structure */
+	for (int i = 0; i < count; i++) {
+		nd[i]->prev = i ? nd[i - 1] : 0;
+		nd[i]->next = i + 1 < count ? nd[i + 1] : 0;
+	}
+	/* queries */
+	enum { QTerm, QPrefix, QExact, QCharset, QBinary, QModes };
+	static const char *qname[QModes] = { "NUL-terminated", "front part of a longer string", "exact-size block", "charset UTF8 incl. terminator", "charset 0 (binary)" };
+	for (int qv = 0; qv < 6; qv++) {
+		const lname *q = &var[qv];
+		for (int mode = 0; mode < QModes; mode++) {
+			size_t bl, len = q->n;
+			int charset = -1, want_state = SText;
+			switch (mode) {
+			case QTerm: bl = q->n + 1; break;
+			case QPrefix: bl = q->n + 4; break;
+			case QExact: bl = q->n; break;
+			case QCharset: bl = q->n + 1; len = q->n + 1; charset = MPT_ENUM(CharsetUTF8); break;
+			default: bl = q->n; charset = 0; want_state = SBinary; if (!q->n) continue;
+			}
+			uint8_t *name = vf_xalloc(bl);
+			if (q->n) memcpy(name, q->b, q->n);
+			if (mode == QTerm || mode == QCharset) name[q->n] = 0;
+			if (mode == QPrefix) {
+				/* what follows is not part of the name: a path separator, or the bytes a longer stored name continues with */
+				name[q->n] = qv == 2 ? '.' : (vf_chance(r, 1, 2) ? '.' : var[2].b[q->n < n + 1 ? q->n : n]);
+				name[q->n + 1] = 's'; name[q->n + 2] = 'u'; name[q->n + 3] = 'b';
+			}
+			for (int start = 0; start < count; start++) {
+				for (int pos = -3; pos <= 3; pos++) {
+					/* expectation from string equality */
+					int exp = -1, left;
+					if (pos > 0) {
+						left = pos;
+						for (int i = start; i < count; i++) if (lname_eq(&nm[i], want_state, q->b, q->n) && !--left) { exp = i; break; }
+					} else if (pos < 0) {
+						left = -pos;
+						for (int i = start - 1; i >= 0; i--) if (lname_eq(&nm[i], want_state, q->b, q->n) && !--left) { exp = i; break; }
+					} else {
+						for (int i = count - 1; i >= 0; i--) if (lname_eq(&nm[i], want_state, q->b, q->n)) { exp = i; break; }
+					}
+					vf_at("mpt_node_locate"); vf_count("mpt_node_locate", 1);
+					if (vf_logging) vf_log("locate(start %d, pos %d, variant %d, %s)", start, pos, qv, qname[mode]);
+					MPT_STRUCT(node) *f = mpt_node_locate(nd[start], pos, name, len, charset);
+					int got = -1;
+					for (int i = 0; i < count; i++) if (f == nd[i]) got = i;
+					if (f && got < 0) vf_fail("model:node_locate:foreign-node", "%s: locate(from node %d, pos %d, name of %zu bytes, %s) returned a node outside the list", desc, start, pos, q->n, qname[mode]);
+					if (exp >= 0 && got < 0) {
+						vf_fail(pos > 0 ? "model:node_locate:forward-missed" : pos < 0 ? "model:node_locate:backward-missed" : "model:node_locate:last-missed",
+						        "%s: locate(from node %d, pos %d, name variant %d of %zu bytes handed over as %s) found nothing, node %d carries exactly these bytes", desc, start, pos, qv, q->n, qname[mode], exp);
+					}
+					if (exp < 0 && got >= 0) {
+						vf_fail(pos > 0 ? "model:node_locate:forward-phantom" : pos < 0 ? "model:node_locate:backward-phantom" : "model:node_locate:last-phantom",
+						        "%s: locate(from node %d, pos %d, name variant %d of %zu bytes handed over as %s) returned node %d, no node in reach has that name", desc, start, pos, qv, q->n, qname[mode], got);
+					}
+					if (exp != got) {
+						vf_fail(pos > 0 ? "model:node_locate:forward-wrong-node" : pos < 0 ? "model:node_locate:backward-wrong-node" : "model:node_locate:last-wrong-node",
+						        "%s: locate(from node %d, pos %d, name variant %d of %zu bytes handed over as %s) returned node %d, expected node %d", desc, start, pos, qv, q->n, qname[mode], got, exp);
+					}
+					if (exp >= 0) {
+						vf_count(pos > 0 ? "monitor:locate-forward-hit" : pos < 0 ? "monitor:locate-backward-hit" : "monitor:locate-last-hit", 1);
+						if (pos <= 0 && (mode == QPrefix || mode == QExact)) vf_count("monitor:locate-back-hit-unterminated-name", 1);
+						if (pos < 0 && exp != start - 1) vf_count("monitor:locate-backward-hit-beyond-neighbour", 1);
+					} else {
+						vf_count("monitor:locate-miss", 1);
+					}
+				}
+			}
+			vf_xfree(name, bl);
+		}
+	}
+	/* names and links untouched by the searches */
+	for (int i = 0; i < count; i++) {
+		const MPT_STRUCT(identifier) *id = &nd[i]->ident;
+		size_t want = nm[i].state == SText ? nm[i].n + 1 : nm[i].n;
+		VF_CHECK(id->_len == want && (!nm[i].n || !memcmp(mpt_identifier_data(id), nm[i].b, nm[i].n)), "model:node_locate:name-modified", "%s: name of node %d changed", desc, i);
+		VF_CHECK(nd[i]->prev == (i ? nd[i - 1] : 0) && nd[i]->next == (i + 1 < count ? nd[i + 1] : 0), "model:node_locate:links-modified", "%s: links of node %d changed", desc, i);
+		ext[i] = ext_ptr(id);
+	}
+	for (int i = 0; i < count; i++) nd[i]->prev = nd[i]->next = 0;
+	for (int i = 0; i < count; i++) {
+		vf_at("mpt_node_destroy"); vf_count("mpt_node_destroy", 1);
+		VF_CHECK(!mpt_node_destroy(nd[i]), "model:node_destroy:refused", "%s: unlinked node %d not destroyed", desc, i);
+		check_released("node_destroy", ext[i], 0, desc);
+	}
+	if (nequal >= 2) vf_nontrivial();
+	vf_sample("%s; every start node x pos -3..3 x 6 name variants x 5 ways of handing the name over", desc);
+}
+
 static uint64_t n_hist(void) { return vf_thorough ? 1000000 : 20000; }
-uint64_t vf_cases(void) { return n_grid() + n_hist(); }
+static uint64_t n_loc(void) { return vf_thorough ? 60000 : 4000; }
+uint64_t vf_cases(void) { return n_grid() + n_hist() + n_loc(); }
 
 void vf_case(uint64_t idx, vf_rng *r)
 {
 	nh = 0;
 	if (idx < n_grid()) { case_grid(idx); return; }
-	case_history(r);
+	idx -= n_grid();
+	if (idx < n_hist()) { case_history(r); return; }
+	case_locate(r);
 }
